@@ -23,12 +23,24 @@ def random_big(ctx, n):
     return cases
 
 
+def many_chunks():
+    """Datasets with hundreds of chunks: counts around 255/256 and 64 (one byte, node capacity)."""
+    cases = []
+    for sb in (0, 2, 3):
+        for dims, chunk in (([63], [1]), ([64], [1]), ([65], [1]), ([255], [1]), ([256], [1]), ([257], [1]), ([600], [2]),
+                            ([16, 16], [1, 1]), ([17, 16], [1, 1]), ([20, 20], [1, 1]), ([9, 9, 9], [2, 2, 2])):
+            for dt, data in (("i32", "seq"), ("f64", "rnd")):
+                cases.append({"cfg": {"sb": sb, "rb": "", "style": 0, "tag": "C01-many-chunks"},
+                              "ops": [{"op": "mkds", "p": "/d", "dt": dt, "dims": dims, "chunk": chunk}, {"op": "write", "p": "/d", "data": data}]})
+    return cases
+
+
 def run(ctx):
     thorough = ctx.tier == "thorough"
     models = [("C01Model.tla", "C01_thorough.cfg" if thorough else "C01_quick.cfg")]
     return run_logical(
         ctx, LEVEL, models,
-        extra_cases=random_big(ctx, 6000 if thorough else 800),
+        extra_cases=many_chunks() + random_big(ctx, 6000 if thorough else 800),
         nontrivial=lambda c: len(c["ops"][0].get("chunk") or []) > 0 or len(c["ops"][0]["dims"]) > 1 or c["ops"][0]["dims"][0] > 1,
         rule="cases = the complete configuration lattice enumerated by TLC (C01Model: element type x rank x extents x "
              "every chunk shape <= extent incl. non-divisors and contiguous x data class x superblock 0/2/3; chunk geometry laws "
